@@ -411,7 +411,7 @@ class TaggedUnionConverter(UnionConverter):
                 raise ParseInterrupt()
         try:
             i = self.tag_map[tag]
-        except KeyError:
+        except (KeyError, TypeError):  # unknown or unhashable tag
             raise ParseInterrupt()
         return self.converters[i].try_convert(val)
 
@@ -443,7 +443,7 @@ class TaggedUnionConverter(UnionConverter):
                 return WrongTypeError(f"mapping with keys '{t_r}' and '{c_r}'", val)
         try:
             i = self.tag_map[tag]
-        except KeyError:
+        except (KeyError, TypeError):  # unknown or unhashable tag
             return WrongTypeError(f"tag '{self.tag}' one of {self.tag_expected()}", tag)
         return self.converters[i].collect_errors(val)
 
@@ -912,7 +912,7 @@ class EnumConverter(Converter[enum.Enum]):
         val = self.inner_conv.try_convert(val)
         try:
             return self.val_map[val]
-        except KeyError:
+        except (KeyError, TypeError):  # unknown or unhashable value
             raise ParseInterrupt()
 
     def collect_errors(self, val: t.Any) -> t.Optional[ErrorNode]:
@@ -924,7 +924,7 @@ class EnumConverter(Converter[enum.Enum]):
         try:
             self.val_map[val]
             return None
-        except KeyError:
+        except (KeyError, TypeError):  # unknown or unhashable value
             return WrongTypeError(self.expected(), val)
 
 
